@@ -299,6 +299,110 @@ def facet_config(h, mesh, mapkind, free=None, side=0, find=None, elem=None, mesh
                 zero('(boundary integral of x.n)^2 == (d |K|)^2', val * val - dim * dim * vol2)
 
 
+def quadratic_weights(elem, X):
+    """Own second-order Lagrange weights at reference point X, built from the element's reference node table only."""
+    D = np.asarray(elem.doflocs, dtype=float)
+    name = elem.refdom.__name__
+    out = []
+    if name == 'RefTri':
+        lam = [1 - X[0] - X[1], X[0], X[1]]
+        for a in range(D.shape[0]):
+            b = [1 - D[a, 0] - D[a, 1], D[a, 0], D[a, 1]]
+            ones = [i for i in range(3) if abs(b[i] - 1) < 1e-12]
+            halves = [i for i in range(3) if abs(b[i] - 0.5) < 1e-12]
+            out.append(lam[ones[0]] * (2 * lam[ones[0]] - 1) if ones else 4 * lam[halves[0]] * lam[halves[1]])
+    elif name == 'RefQuad':
+        def L(c, x):
+            if abs(c) < 1e-12:
+                return (1 - x) * (1 - 2 * x)
+            if abs(c - 1) < 1e-12:
+                return x * (2 * x - 1)
+            return 4 * x * (1 - x)
+        for a in range(D.shape[0]):
+            out.append(L(D[a, 0], X[0]) * L(D[a, 1], X[1]))
+    else:
+        raise ValueError(name)
+    return out
+
+
+def curved_config(h, mesh, cls):
+    """Second-order (curved) meshes: vertices AND mid-side (and cell-centre) nodes symbolic."""
+    import skfem as S
+    with warnings.catch_warnings():
+        warnings.simplefilter('ignore')
+        m1 = make_mesh(h, mesh)
+        C = getattr(S, cls)
+        M0 = C.from_mesh(m1)
+        nv = m1.p.shape[1]
+        P0 = M0.doflocs
+        nom = np.zeros((2, P0.shape[1] - nv))
+        from engine.zoo import topo
+        _, pn, tn = topo(mesh)
+        Mf = C.from_mesh(getattr(S, type(m1).__name__)(pn, tn))
+        bump = ((np.arange(nom.size).reshape(nom.shape) * 7 % 5) - 2) / 64.0
+        nom = np.asarray(Mf.doflocs, dtype=float)[:, nv:] + bump
+        q = h.sym('q', nom.shape, nominal=nom)
+        P = np.empty(P0.shape, dtype=object if h.sym_mode else float)
+        P[:, :nv] = P0[:, :nv]
+        P[:, nv:] = q
+        from dataclasses import replace
+        M = replace(M0, doflocs=P)
+        mp = M._mapping()
+        e = M.elem()
+        ed = np.asarray(M.dofs.element_dofs)
+        nt = ed.shape[1]
+        X = points(h, 2, 'shared', nt)
+        npts = X.shape[-1]
+        h.sample(dict(mesh=mesh, cls=cls, cells=int(nt), nodes_per_cell=int(ed.shape[0]), symbolic_nodes=int(P.shape[1])))
+
+        def own(c, Xq):
+            w = quadratic_weights(e, Xq)
+            return [sum(w[a] * P[d, ed[a, c]] for a in range(len(w))) for d in range(2)]
+        if h.sym_mode:
+            for c in range(nt):
+                for q_ in range(npts):
+                    Xq = [X[d, q_] for d in range(2)]
+                    o = own(c, Xq)
+                    Jo = np.array([[dsym(tosym(o[a]), Xq[b], {}) for b in range(2)] for a in range(2)], dtype=object)
+                    h.assume(tosym(det_obj(Jo)) != 0)
+        Fx = mp.F(X)
+        DF = mp.DF(X)
+        iDF = mp.invDF(X)
+        dDF = mp.detDF(X)
+        for c in range(nt):
+            for q_ in range(npts):
+                Xq = [X[d, q_] for d in range(2)]
+                o = own(c, Xq)
+                for d in range(2):
+                    h.zero('F[%d] cell %d pt %d == own second-order map' % (d, c, q_), Fx[d, c, q_] - o[d])
+                J = np.array([[DF[a, b, c, q_] for b in range(2)] for a in range(2)], dtype=object if h.sym_mode else float)
+                if h.sym_mode:
+                    for a in range(2):
+                        for b in range(2):
+                            h.zero('DF[%d,%d] cell %d pt %d == dF/dX' % (a, b, c, q_), J[a, b] - dsym(tosym(Fx[a, c, q_]), Xq[b], {}))
+                h.zero('detDF cell %d pt %d == det(DF)' % (c, q_), dDF[c, q_] - det_obj(J))
+                for a in range(2):
+                    for b in range(2):
+                        h.zero('invDF DF [%d,%d] cell %d pt %d' % (a, b, c, q_), sum(iDF[a, k, c, q_] * J[k, b] for k in range(2)) - (1 if a == b else 0))
+        # facet map: quadratic curve through the two end vertices and the mid-side node
+        s = h.sym('s', (1, 1), nominal=np.array([[0.3125]]))
+        fac = np.asarray(M.facets)
+        fdofs = np.asarray(M.dofs.facet_dofs)
+        fi = np.arange(fac.shape[1]).astype(np.int32)
+        G = mp.G(s, find=fi)
+        dG = mp.detDG(s, find=fi)
+        for f in fi:
+            sv = s[0, 0]
+            w = [(1 - sv) * (1 - 2 * sv), sv * (2 * sv - 1), 4 * sv * (1 - sv)]
+            nodes = [fac[0, f], fac[1, f], fdofs[0, f]]
+            o = [sum(w[a] * P[d, nodes[a]] for a in range(3)) for d in range(2)]
+            for d in range(2):
+                h.zero('G[%d] facet %d == quadratic curve through its three nodes' % (d, f), G[d, f, 0] - o[d])
+            if h.sym_mode:
+                T = [dsym(tosym(o[d]), sv, {}) for d in range(2)]
+                h.zero('detDG^2 facet %d == |dG/ds|^2' % f, dG[f, 0] * dG[f, 0] - (T[0] * T[0] + T[1] * T[1]))
+
+
 def agree_config(h, mesh, layout, tind, free=None):
     """Affine and isoparametric implementations return the same values on straight-sided simplices."""
     with warnings.catch_warnings():
@@ -378,6 +482,11 @@ def build_configs(tier, seed):
         add('facet/quad2/iso/numeric/side=%d' % side, facet_config, mesh='quad2', mapkind='iso', free='none', side=side, numeric_s=True)
         add('facet/quad2mix/iso/numeric/side=%d' % side, facet_config, mesh='quad2mix', mapkind='iso', free='none', side=side, numeric_s=True)
         add('facet/hex2/iso/numeric/side=%d' % side, facet_config, mesh='hex2', mapkind='iso', free='none', side=side, numeric_s=True, timeout=900)
+    # ---- curved second-order meshes: vertices and mid-side nodes symbolic ------------------------------------------------------------------
+    add('curved/tri2/MeshTri2', curved_config, mesh='tri2', cls='MeshTri2', timeout=900)
+    add('curved/quad1/MeshQuad2', curved_config, mesh='quad1', cls='MeshQuad2', timeout=900)
+    if not quick:
+        add('curved/quad2/MeshQuad2', curved_config, mesh='quad2', cls='MeshQuad2', timeout=3000)
     # ---- affine == isoparametric on simplices --------------------------------------------------------------------------------------------
     for mesh in ['tri3fan', 'line3perm', 'tet2']:
         for layout in ('shared', 'percell'):
@@ -398,7 +507,7 @@ META = dict(
     bounds=dict(meshes='1-3 cell meshes per class; hexahedra one (thorough two) free vertices; prism numeric',
                 newton='symbolic only on affine geometry (tri, thorough tet/line); general quads/hexes/mixed batches numeric with 1e-9 tolerance (concrete)',
                 layouts='(dim,npts) and (dim,ncells,npts); tind in {None, subset, permutation}; MappingAffine(mesh, tind=...)'),
-    outside=['curved second-order meshes with symbolic mid-side nodes (not built)', 'Newton convergence on general cells for all geometries',
+    outside=['Newton inverse and normals on curved cells', 'curved tetrahedra/hexahedra', 'Newton convergence on general cells for all geometries',
              'Jacobian cache behaviour on arrays beyond the enumerated sizes', 'float rounding'],
     stubs=[],
     assumptions=['mesh validity (non-degenerate cells, neighbours on opposite sides, convex quadrilaterals)'],
